@@ -370,7 +370,8 @@ class Engine:
             gc.disable()
             failure = sim.run(main)
             out = {"violation": None, "error": None, "steps": sim.steps,
-                   "simtime": sim.now, "sig": sim.sig, "faults": {},
+                   "simtime": sim.now, "sig": sim.sig,
+               "states": sim.state_hashes, "faults": {},
                    "probes": {}, "nontrivial": False}
             for k_ in ("timeout_fired", "timer_fired_early", "stall",
                        "starve", "preempt", "pct_change"):
@@ -642,10 +643,14 @@ def _check_time(text, tf, x):
         if abs(float(text) - x) > 0.0005 + 1e-9:
             return "%r is not %r to three decimals" % (text, x)
         return None
+    # whole-millisecond value: truncation or rounding of 1000*x as computed
+    # in floating point (0.3 s is 300 ms, not the 299 an exact-rational floor
+    # of the binary value would give)
+    ms_ok = {int(x * 1000), int(round(x * 1000))}
     if tf == "%I":
         if not re.fullmatch(r"\d+", text):
             return "%r is not whole milliseconds" % text
-        if abs(int(text) - x * 1000) >= 1 + 1e-6:
+        if int(text) not in ms_ok:
             return "%r is not %r in whole milliseconds" % (text, x)
         return None
     pat = re.escape(tf)
@@ -659,7 +664,7 @@ def _check_time(text, tf, x):
     if mi >= 60 or s >= 60 or ms >= 1000:
         return "field out of range in %r" % text
     total = ((h * 60 + mi) * 60 + s) * 1000 + ms
-    if abs(total - x * 1000) >= 1 + 1e-6:
+    if total not in ms_ok:
         return "%r recomposes to %d ms, value is %r s" % (text, total, x)
     return None
 
